@@ -658,6 +658,36 @@ func (z *zoneEngine) provesLeq(s *zstate, x zterm, ox int64, y zterm, oy int64) 
 			return true
 		}
 	}
+	// difference lemma: x <= A - B (+ oy) holds when B - A <= oy - ox - x, i.e. for the constant
+	// zero on the left, when the zone bounds B - A; symmetrically A - B <= y.
+	diff := func(t zterm) (a, b zterm, oa, ob int64, ok bool) {
+		if t.v == nil || t.len {
+			return
+		}
+		bo, isBo := t.v.(*ssa.BinOp)
+		if !isBo || bo.Op != token.SUB || !isIntType(bo.Type()) {
+			return
+		}
+		a, oa = z.lin(s, bo.X)
+		b, ob = z.lin(s, bo.Y)
+		return a, b, oa, ob, true
+	}
+	if x == zZero {
+		if a, b, oa, ob, ok := diff(y); ok {
+			// ox <= (a + oa) - (b + ob) + oy   <=>   b - a <= oa - ob + oy - ox
+			if d := s.bound(b, a); d < zInf && d <= oa-ob+oy-ox {
+				return true
+			}
+		}
+	}
+	if y == zZero {
+		if a, b, oa, ob, ok := diff(x); ok {
+			// (a + oa) - (b + ob) + ox <= oy   <=>   a - b <= oy - ox - oa + ob
+			if d := s.bound(a, b); d < zInf && d <= oy-ox-oa+ob {
+				return true
+			}
+		}
+	}
 	// x = a + [lb, ub]: enough that a + oa + ub + ox <= y + oy
 	for _, p := range parts(x) {
 		if p.ub < zInf/2 && s.bound(p.a, y) <= oy-ox-p.oa-p.ub {
